@@ -30,10 +30,27 @@ Scope == ndJsonDeserialize(IOEnv.VERIF_SCOPE)
 
 VARIABLE l
 
+\* the longest length-prefixed / fixed-size field (string, bytes, fixed, duration, decimal bytes, map key) of a value
+RECURSIVE MaxField(_)
+RECURSIVE MaxFieldList(_, _)
+MaxFieldList(vs, i) == IF i > Len(vs) THEN 0 ELSE MaxN(MaxField(vs[i]), MaxFieldList(vs, i + 1))
+MaxField(v) ==
+    CASE v.t \in {"bytes", "str", "fix", "dur"} -> Len(v.v)
+      [] v.t = "dec" -> 16
+      [] v.t \in {"arr", "rec"} -> MaxFieldList(v.es, 1)
+      [] v.t = "map" -> MaxN(MaxFieldList([i \in 1..Len(v.kv) |-> v.kv[i][2]], 1),
+                             MaxFieldList([i \in 1..Len(v.kv) |-> [t |-> "str", v |-> v.kv[i][1]]], 1))
+      [] v.t = "un" -> MaxField(v.x)
+      [] OTHER -> 0
+
+\* e.maxalloc: -1 for slice input; for reader input, the configured cap on a single field that is not wholly in the
+\* reader's current buffer: a value holding a larger field may be rejected (and must be if the field is not buffered -
+\* which the trace does not tell, so only "may"); values whose fields all fit must decode.
 DeAllowed(e) ==
     LET G == Scope[e.si].nodes
         r == Dec(G, 1, e.bytes, 1, e.depth, e.maxseq)
-    IN  CASE r.st = "ok"   -> e.res = "ok" /\ e.value = r.v /\ e.consumed = r.pos - 1
+    IN  CASE r.st = "ok"   -> \/ (e.res = "ok" /\ e.value = r.v /\ e.consumed = r.pos - 1)
+                              \/ (e.res = "err" /\ e.maxalloc >= 0 /\ MaxField(r.v) > e.maxalloc)
           [] r.st = "err"  -> e.res = "err"
           [] r.st = "free" -> e.res \in {"ok", "err"}
 
